@@ -169,6 +169,15 @@ func (op *Operation) popClosestUnqueried() types.AddrMaybeId {
 }
 
 func (op *Operation) haveQuery() bool {
+	// An address can be reported under several IDs. Once it has been queried, candidates that
+	// were added for it beforehand are stale and must not be queried again.
+	for op.unqueried.Len() != 0 {
+		cu := op.closestUnqueried()
+		if _, ok := op.queried[addrString(cu.Addr.String())]; !ok {
+			break
+		}
+		op.unqueried = op.unqueried.Delete(cu)
+	}
 	if op.unqueried.Len() == 0 {
 		return false
 	}
